@@ -1600,7 +1600,15 @@ class Interp:
         it = self.iter_seq(self.eval(n.iter))
         spec = None
         if self.frame.closure is not None:
-            spec = self.loop_specs.get((self.frame.closure.qualname, ordinal))
+            q = self.frame.closure.qualname
+            spec = self.loop_specs.get((q, ordinal))
+            if spec is None:
+                # loop specs may also be keyed by a fragment of the iterable's source text (robust against inserted/removed loops)
+                src = ast.unparse(n.iter)
+                for (qq, key), sp in self.loop_specs.items():
+                    if qq == q and isinstance(key, str) and key in src:
+                        spec = sp
+                        break
         if isinstance(it, PyList):
             # concrete iterable: exact unrolling (complete), even when an invariant is available
             self.loop_kinds.append(("concrete", len(self.guards)))
